@@ -27,7 +27,7 @@ CLASSES = ("constant", "two_valued", "bits2", "bits4", "bits8", "normal", "wide"
 
 def REQUIRED(tier):
     return ["histories:composition", "histories:merge", "histories:merge_of_merges", "class:constant", "class:wide", "class:outlier", "class:tiny",
-            "mode:basic", "mode:full", "constant_channel_checks", "single_sample_chunks", "canary_audits", "cross_partition_checks", "class:const_f64", "class:normal_f64", "histories:large_merge", "regime:merged_count_over_2^21"]
+            "mode:basic", "mode:full", "constant_channel_checks", "single_sample_chunks", "canary_audits", "cross_partition_checks", "class:const_f64", "class:normal_f64", "histories:large_merge", "regime:merged_count_over_2^21", "histories:observed_mid_stream", "merge:augmented_assignment"]
 
 
 def cases(tier, seed):
@@ -84,8 +84,10 @@ def gen_data(cls, n, nch, dseed):
     return x
 
 
-def _push_all(cs_cls, x, chunks, mode, frame, first_index=0):
-    """Feed x (n, nch) in consecutive chunks of the given sizes; returns the ChannelStats."""
+def _push_all(cs_cls, x, chunks, mode, frame, first_index=0, peek=False):
+    """Feed x (n, nch) in consecutive chunks of the given sizes; returns the ChannelStats.
+
+    peek: read every statistic after every chunk (a progress display): looking at an accumulator must not change what it reports later."""
     n, nch = x.shape
     cs = cs_cls(nch, n)
     pos = 0
@@ -93,6 +95,9 @@ def _push_all(cs_cls, x, chunks, mode, frame, first_index=0):
         arr = frame.like(np.ascontiguousarray(x[pos : pos + c]).ravel(), f"chunk{i}")
         cs.push_data(arr, i + first_index, mode=mode)
         pos += c
+        if peek:
+            with np.errstate(all="ignore"):
+                _ = (cs.mean, cs.var, cs.std, cs.maxima, cs.minima) + ((cs.skew, cs.kurtosis) if mode == "full" else ())
     return cs
 
 
@@ -236,6 +241,10 @@ def run_case(case, ctx):
     def merge_of(k, fr):
         a = _push_all(ChannelStats, x[:k], [k], mode, fr)
         b = _push_all(ChannelStats, x[k:], [n - k], mode, fr)
+        if k % 2:          # the augmented spelling of the same merge ("total += part")
+            ctx.count("merge:augmented_assignment")
+            a += b
+            return a
         return a + b
 
     if case["kind"] == "exhaustive":
@@ -250,6 +259,9 @@ def run_case(case, ctx):
             if 1 in chunks:
                 ctx.count("single_sample_chunks")
             run_hist("composition", chunks, lambda fr, ch=chunks: _push_all(ChannelStats, x, ch, mode, fr))
+            if len(chunks) >= 2:
+                ctx.count("histories:observed_mid_stream")
+                run_hist("composition", chunks + ["peek"], lambda fr, ch=chunks: _push_all(ChannelStats, x, ch, mode, fr, peek=True))
         for k in range(1, n):
             run_hist("merge", ["merge", k, n - k], lambda fr, k=k: merge_of(k, fr))
         if n >= 3:
@@ -270,7 +282,10 @@ def run_case(case, ctx):
                 chunks = [1] * min(n - 1, 25) + [n - min(n - 1, 25)]
             if 1 in chunks:
                 ctx.count("single_sample_chunks")
-            run_hist("composition", chunks if len(chunks) < 30 else chunks[:30] + ["..."], lambda fr, ch=chunks: _push_all(ChannelStats, x, ch, mode, fr))
+            pk = bool(rng.random() < 0.5) and len(chunks) >= 2
+            if pk:
+                ctx.count("histories:observed_mid_stream")
+            run_hist("composition", (chunks if len(chunks) < 30 else chunks[:30] + ["..."]) + (["peek"] if pk else []), lambda fr, ch=chunks, pk=pk: _push_all(ChannelStats, x, ch, mode, fr, peek=pk))
         for k in (1, n - 1, int(rng.integers(1, n))):
             run_hist("merge", ["merge", k, n - k], lambda fr, k=k: merge_of(k, fr))
         k1 = int(rng.integers(1, n - 1)); k2 = int(rng.integers(k1 + 1, n))
